@@ -244,7 +244,10 @@ void Image::load(FILE* f) {
 
     DataPtrs new_data;
     size_t channels_factor = (format == Format::COLOR_PPM ? 3 : 1) + (new_has_alpha ? 1 : 0);
-    new_data.raw = malloc(new_width * new_height * channels_factor * (new_channel_width / 8));
+    // Grayscale data is expanded to color data in place (below), so the buffer
+    // must be large enough for the expanded image, not just for the file data
+    size_t image_channels = new_has_alpha ? 4 : 3;
+    new_data.raw = malloc(new_width * new_height * image_channels * (new_channel_width / 8));
     if (!new_data.raw) {
       throw bad_alloc();
     }
@@ -275,37 +278,45 @@ void Image::load(FILE* f) {
       size_t src_stride = this->has_alpha ? 2 : 1;
       for (ssize_t y = this->height - 1; y >= 0; y--) {
         for (ssize_t x = this->width - 1; x >= 0; x--) {
+          // The source samples of this pixel must be read before the
+          // destination is written (they overlap for the first pixel)
+          size_t src_index = (y * this->width + x) * src_stride;
+          size_t dest_index = (y * this->width + x) * dest_stride;
           if (this->channel_width == 8) {
-            uint8_t v = this->data.as8[y * this->width * src_stride + x];
-            this->data.as8[(y * this->width + x) * dest_stride + 0] = v;
-            this->data.as8[(y * this->width + x) * dest_stride + 1] = v;
-            this->data.as8[(y * this->width + x) * dest_stride + 2] = v;
+            uint8_t v = this->data.as8[src_index];
+            uint8_t a = this->has_alpha ? this->data.as8[src_index + 1] : 0;
+            this->data.as8[dest_index + 0] = v;
+            this->data.as8[dest_index + 1] = v;
+            this->data.as8[dest_index + 2] = v;
             if (this->has_alpha) {
-              this->data.as8[(y * this->width + x) * dest_stride + 3] = this->data.as8[y * this->width * src_stride + x + 1];
+              this->data.as8[dest_index + 3] = a;
             }
           } else if (this->channel_width == 16) {
-            uint8_t v = this->data.as16[y * this->width * src_stride + x];
-            this->data.as16[(y * this->width + x) * dest_stride + 0] = v;
-            this->data.as16[(y * this->width + x) * dest_stride + 1] = v;
-            this->data.as16[(y * this->width + x) * dest_stride + 2] = v;
+            uint16_t v = this->data.as16[src_index];
+            uint16_t a = this->has_alpha ? this->data.as16[src_index + 1] : 0;
+            this->data.as16[dest_index + 0] = v;
+            this->data.as16[dest_index + 1] = v;
+            this->data.as16[dest_index + 2] = v;
             if (this->has_alpha) {
-              this->data.as16[(y * this->width + x) * dest_stride + 3] = this->data.as16[y * this->width * src_stride + x + 1];
+              this->data.as16[dest_index + 3] = a;
             }
           } else if (this->channel_width == 32) {
-            uint8_t v = this->data.as32[y * this->width * src_stride + x];
-            this->data.as32[(y * this->width + x) * dest_stride + 0] = v;
-            this->data.as32[(y * this->width + x) * dest_stride + 1] = v;
-            this->data.as32[(y * this->width + x) * dest_stride + 2] = v;
+            uint32_t v = this->data.as32[src_index];
+            uint32_t a = this->has_alpha ? this->data.as32[src_index + 1] : 0;
+            this->data.as32[dest_index + 0] = v;
+            this->data.as32[dest_index + 1] = v;
+            this->data.as32[dest_index + 2] = v;
             if (this->has_alpha) {
-              this->data.as32[(y * this->width + x) * dest_stride + 3] = this->data.as32[y * this->width * src_stride + x + 1];
+              this->data.as32[dest_index + 3] = a;
             }
           } else if (this->channel_width == 64) {
-            uint8_t v = this->data.as64[y * this->width * src_stride + x];
-            this->data.as64[(y * this->width + x) * dest_stride + 0] = v;
-            this->data.as64[(y * this->width + x) * dest_stride + 1] = v;
-            this->data.as64[(y * this->width + x) * dest_stride + 2] = v;
+            uint64_t v = this->data.as64[src_index];
+            uint64_t a = this->has_alpha ? this->data.as64[src_index + 1] : 0;
+            this->data.as64[dest_index + 0] = v;
+            this->data.as64[dest_index + 1] = v;
+            this->data.as64[dest_index + 2] = v;
             if (this->has_alpha) {
-              this->data.as64[(y * this->width + x) * dest_stride + 3] = this->data.as64[y * this->width * src_stride + x + 1];
+              this->data.as64[dest_index + 3] = a;
             }
           }
         }
